@@ -20,7 +20,7 @@ def config(name):
                             Lqs={0, 1, 1003}, Convs={"Rx", "H"}, SwapLevel=2, UIds={"H", "C3"}, HeraldNs={0, 1})
     if name == "groups":             # plain and heralded groups, nesting depth 2, heralds on any modes, swaps spanning ancillas
         return cc.consts_of(**par, Scenario="tmpl", PNu=4, NObj=3, Targets={1, 2, 3}, AddPairs={(1, 2), (1, 3), (2, 3)}, Numeric=False, MaxLen=7,
-                            DispMin=2, DispArgs=DISP, MaxAnc=4, MaxAdds=3, MaxHer=(1, 2, 1), TmplLoss=True, HeraldNs={0, 1}, SwapLevel=1,
+                            DispMin=2, DispArgs=DISP, MaxAnc=4, MaxAdds=3, MaxHer=(1, 2, 2), TmplLoss=True, HeraldNs={0, 1}, SwapLevel=1,
                             Kinds={"herald", "add", "swap", "bs", "probeall", "unpack", "display"}, Rids={1001}, Convs={"Rx"}, Lqs={0, 1003}, MaxComp=2)
     if name == "components_x":       # exhaustive rung (model-level: frame condition and outcome table)
         return cc.consts_of(**par, NUs={3}, Numeric=False, MaxLen=3, DispMin=0, DispArgs=DISP,
